@@ -1,7 +1,12 @@
 package main
 
 import (
+	"syscall"
+	"os/exec"
+	"encoding/json"
+	"bytes"
 	"errors"
+	"time"
 	"math"
 	"fmt"
 	"math/rand"
@@ -15,6 +20,30 @@ import (
 	"google.golang.org/protobuf/proto"
 	"gorgonia.org/tensor"
 )
+
+// Run under a deadline: a Run that never returns (a leaked lock, a deadlock) is an outcome, not a broken check
+func runWithDeadline(m *gonnx.Model, in gonnx.Tensors, d time.Duration) (out gonnx.Tensors, err error, hung bool) {
+	type res struct {
+		out gonnx.Tensors
+		err error
+	}
+	ch := make(chan res, 1)
+	go func() {
+		defer func() {
+			if r := recover(); r != nil {
+				ch <- res{nil, fmt.Errorf("panic: %v", r)}
+			}
+		}()
+		o, e := m.Run(in)
+		ch <- res{o, e}
+	}()
+	select {
+	case r := <-ch:
+		return r.out, r.err, false
+	case <-time.After(d):
+		return nil, nil, true
+	}
+}
 
 func loadObs(b []byte) (obs string) {
 	defer func() {
@@ -84,10 +113,8 @@ func genC18(dir, tier string, seed int64) {
 	hdr := "From Coq Require Import List String ZArith.\nFrom V Require Import DType Case Decode CheckC18.\nFrom Gen Require Import OpTable.\nImport ListNotations.\nOpen Scope Z_scope.\nDefinition cases : list lcase := ["
 	ftr := "].\nDefinition verdicts := Eval vm_compute in map (verdict supported_opsets) cases.\nPrint verdicts.\nDefinition kinds := Eval vm_compute in map (kind supported_opsets) cases.\nPrint kinds."
 	nStruct := 500
-	nMut := 3000
-	nRand := 1500
 	if tier == "thorough" {
-		nStruct, nMut, nRand = 20000, 500000, 120000
+		nStruct = 20000
 	}
 	cw := newCaseWriter(dir, "C18_load", hdr, ftr,
 		"generated model structures: 0..3 initializers (C12's generator: 11 types, typed or raw, rank 0..3; 1 model in 3 carries one malformed initializer: extra/zero/negative dim, truncated raw data, unsupported type) x opset import lists ([13], [12], [14], [], [0], [-5], [13,1], [1,13], [13,14], [13,13], [9,11,13], [2^40], lists with the int64 extremes and versions more than 2^63 apart, random 1..3 versions in -2..20 over several domains), marshalled and loaded with NewModelFromBytes", false, 250)
@@ -129,10 +156,11 @@ func genC18(dir, tier string, seed int64) {
 	cw.close()
 
 	// ---- unknown operator types through the REAL registry ----
-	unk := goOnlyResult{Stream: "C18_unknown_operator", Rule: "real graphs x -> Abs -> <type> -> Abs through opset13.GetOperator (the node of that type at each of the three positions on the path to the output, on a side branch whose result is never read -- first or last in the node list -- and as a node without outputs; as a node whose output name is already bound by an initializer, by a tensor the caller passes, or by an earlier node): the node carrying no domain, ai.onnx, ai.onnx.ml or com.microsoft in turn; for every unregistered type string (case/affix perturbations of registered names, ONNX operators that are not implemented, odd strings) Run must fail with errors.Is(err, ops.ErrUnsupportedOperator) and return no outputs; the same graph with a registered unary type must succeed", Violations: []string{}}
+	unk := goOnlyResult{Stream: "C18_unknown_operator", Rule: "real graphs x -> Abs -> <type> -> Abs through opset13.GetOperator (the node of that type at each of the three positions on the path to the output, on a side branch whose result is never read -- first or last in the node list -- and as a node without outputs; as a node whose output name is already bound by an initializer, by a tensor the caller passes, or by an earlier node; as a node that reads its own output or re-binds the name it reads): the node carrying no domain, ai.onnx, ai.onnx.ml or com.microsoft in turn; for every unregistered type string (case/affix perturbations of registered names, ONNX operators that are not implemented, odd strings) Run must fail with errors.Is(err, ops.ErrUnsupportedOperator) and return no outputs; the same graph with a registered unary type must succeed", Violations: []string{}}
 	names := []string{"abs", "ABS", "Abs ", " Abs", "Abs1", "Ab", "ai.onnx.Abs", "", "Pad", "Gelu", "MaxPool", "Identity", "Exp", "Neg", "LeakyRelu", "Erf", "Softplus", "relu", "Relu6", "Tanhh", "nil", "13", "Sigmoid\x00", "Cosine"}
+	stopUnknown := false
 	for _, tname := range append(names, "Relu", "Tanh", "Sigmoid") {
-		for pos := 0; pos < 9; pos++ {
+		for pos := 0; pos < 11 && !stopUnknown; pos++ {
 			if pos >= 6 && (tname == "Relu" || tname == "Tanh" || tname == "Sigmoid") {
 				continue // the last three positions re-bind a name: only meaningful for a type that must be refused
 			}
@@ -164,6 +192,11 @@ func genC18(dir, tier string, seed int64) {
 				if pos == 6 {
 					g.Initializer = append(g.Initializer, &onnx.TensorProto{Name: "b", Dims: []int64{3}, DataType: 1, FloatData: []float32{7, 8, 9}})
 				}
+			case 9: // the node reads its own output (a self-loop): not computable, and still an unsupported operator
+				g.Node[1] = &onnx.NodeProto{OpType: tname, Input: []string{"b"}, Output: []string{"b"}}
+			case 10: // the node re-binds the name it reads (x = Op(x))
+				g.Node[1] = &onnx.NodeProto{OpType: tname, Input: []string{"a"}, Output: []string{"a"}}
+				g.Node[2].Input = []string{"a"}
 			case 8: // ... by an earlier node
 				g.Node = []*onnx.NodeProto{g.Node[0], g.Node[1], {OpType: tname, Input: []string{"a"}, Output: []string{"b"}}, g.Node[2]}
 			}
@@ -191,7 +224,12 @@ func genC18(dir, tier string, seed int64) {
 				if extra {
 					feed["b"] = tensor.New(tensor.WithShape(3), tensor.WithBacking([]float32{7, 8, 9}))
 				}
-				out, err := m.Run(feed)
+				out, err, hung := runWithDeadline(m, feed, 60*time.Second)
+				if hung {
+					unk.Violations = append(unk.Violations, fmt.Sprintf("Run of a graph with operator type %q at node %d did not return within 60 s (the stream stops here)", tname, pos))
+					stopUnknown = true
+					return
+				}
 				registered := tname == "Relu" || tname == "Tanh" || tname == "Sigmoid"
 				switch {
 				case registered && (err != nil || out["y"] == nil):
@@ -208,6 +246,40 @@ func genC18(dir, tier string, seed int64) {
 	}
 	meta.GoOnly = append(meta.GoOnly, unk)
 
+	// ---- bytes: NewModelFromBytes must never panic (in a child process, see bytesStreamC18) ----
+	{
+		cmd := exec.Command(os.Args[0], "-prop", "C18", "-tier", tier, "-seed", fmt.Sprint(seed), "-out", dir)
+		cmd.Env = append(os.Environ(), "VGEN_CHILD=c18bytes")
+		var stderr bytes.Buffer
+		cmd.Stderr = &stderr
+		runErr := cmd.Run()
+		var cr bytesChildResult
+		bs, rerr := os.ReadFile(filepath.Join(dir, "c18bytes.json"))
+		if runErr != nil || rerr != nil || json.Unmarshal(bs, &cr) != nil {
+			last, _ := os.ReadFile(filepath.Join(dir, "c18bytes.progress"))
+			tail := stderr.String()
+			if len(tail) > 600 {
+				tail = tail[:600]
+			}
+			fz := goOnlyResult{Stream: "C18_bytes", Rule: "NewModelFromBytes in a child process", N: 1, Violations: []string{fmt.Sprintf("the process loading the models DIED (%v) while loading: %s (bytes saved as %s); stderr: %s", runErr, strings.TrimSpace(string(last)), filepath.Join(dir, "c18bytes.last.bin"), tail)}}
+			meta.GoOnly = append(meta.GoOnly, fz)
+		} else {
+			count("bytes_kind", fmt.Sprintf("single-field mutants: %d", cr.NField))
+			for k, v := range cr.Stat {
+				count("bytes_outcome", k)
+				meta.Distribution["bytes_outcome"][k] = v
+			}
+			meta.GoOnly = append(meta.GoOnly, cr.Result)
+		}
+	}
+}
+
+// The bytes stream runs in a CHILD process (same binary, VGEN_CHILD=c18bytes): a load that kills the
+// process -- Go's unrecoverable "fatal error: out of memory" or stack overflow, which recover() cannot
+// catch -- must be reported as a violation with the input that did it, not end the check. The child limits
+// its address space, notes every input before loading it, and writes its result file at the end.
+func bytesStreamC18(dir, tier string, seed int64, nMut, nRand int, progress func(what string, b []byte)) (goOnlyResult, map[string]int, int) {
+	r := rand.New(rand.NewSource(seed ^ 0x18b7e5))
 	// ---- bytes: NewModelFromBytes must never panic ----
 	fz := goOnlyResult{Stream: "C18_bytes", Rule: "NewModelFromBytes under recover(): every truncation of the small sample models (and sampled truncations of ndm.onnx), seeded bit-flip / byte-substitution / splice mutants of them, arbitrary byte strings, and structured mutants (every field of every initializer and value-info perturbed, re-marshalled); a panic is a violation", Violations: []string{}, Known: map[string]int{}}
 	var seeds [][]byte
@@ -231,6 +303,7 @@ func genC18(dir, tier string, seed int64) {
 	}
 	stat := map[string]int{}
 	try := func(b []byte, what string) {
+		progress(what, b)
 		fz.N++
 		o := loadObs(b)
 		stat[strings.Fields(strings.Trim(o, "()"))[0]]++
@@ -397,10 +470,35 @@ func genC18(dir, tier string, seed int64) {
 		}
 		nField += forEachFieldMutant(fs, lim, func(b []byte, what string) { try(b, fmt.Sprintf("field mutant of seed model %d: %s", si, what)) })
 	}
-	count("bytes_kind", fmt.Sprintf("single-field mutants: %d", nField))
-	for k, v := range stat {
-		count("bytes_outcome", k)
-		meta.Distribution["bytes_outcome"][k] = v
+	return fz, stat, nField
+}
+
+type bytesChildResult struct {
+	Result goOnlyResult   `json:"result"`
+	Stat   map[string]int `json:"stat"`
+	NField int            `json:"n_field"`
+}
+
+func childC18Bytes(dir, tier string, seed int64) {
+	// 24 GB of address space: far more than any honest load needs, far less than a 2^33-element buffer
+	var lim syscall.Rlimit
+	lim.Cur, lim.Max = 24<<30, 24<<30
+	syscall.Setrlimit(syscall.RLIMIT_AS, &lim)
+	nMut, nRand := 3000, 1500
+	if tier == "thorough" {
+		nMut, nRand = 500000, 120000
 	}
-	meta.GoOnly = append(meta.GoOnly, fz)
+	pf, _ := os.Create(filepath.Join(dir, "c18bytes.progress"))
+	progress := func(what string, b []byte) {
+		if pf == nil {
+			return
+		}
+		pf.Seek(0, 0)
+		pf.Truncate(0)
+		fmt.Fprintf(pf, "%s\n", what)
+		os.WriteFile(filepath.Join(dir, "c18bytes.last.bin"), b, 0o644)
+	}
+	fz, stat, nField := bytesStreamC18(dir, tier, seed, nMut, nRand, progress)
+	bs, _ := json.Marshal(bytesChildResult{fz, stat, nField})
+	os.WriteFile(filepath.Join(dir, "c18bytes.json"), bs, 0o644)
 }
